@@ -3,10 +3,11 @@
    here and closed by `exact` of a lemma of Proofs/Fiber.v (over Q, lists) or Proofs/FiberR.v (over R).
 
    Raman off: exact.  Raman on: PARTIAL by design — the theorems cover the Euler ('numerical') scheme in
-   its zero-power limit (incl. "each lumped loss once" and the discretisation bound) and first-order pump gain; agreement between the
-   perturbative and numerical methods, perturbative orders 2-4 and the iterative co/counter algorithm are
-   compared numerically by harness/c05.py only (labelled as tests in the evidence). *)
-From Coq Require Import QArith Qminmax Reals Permutation SetoidList Sorted Qreals.
+   its zero-power limit (closed form, real limit, "each lumped loss once", discretisation bound) and
+   first-order pump gain; agreement between the perturbative and numerical methods, perturbative orders
+   2-4 and the iterative co/counter algorithm are compared numerically by harness/c05.py only (labelled
+   as tests in the evidence). *)
+From Coq Require Import QArith Qminmax Reals Permutation SetoidList Sorted Qreals Ranalysis1.
 From Verif Require Import Prelude Model.Fiber Proofs.Fiber Proofs.FiberR.
 
 (* ================================================================================================
@@ -30,12 +31,12 @@ Print Assumptions fiber_budget.
 Theorem lumped_merge : forall zl z,
   qsum (map snd (merge_grid Qplus 0 zl z)) == qsum (map snd zl) /\
   qprod (map snd (merge_grid Qmult 1 zl z)) == qprod (map snd zl).
-Proof. intros zl z. split; [exact (Proofs.Fiber.lumped_merge_db zl z)|exact (Proofs.Fiber.lumped_merge_lin zl z)]. Qed.
+Proof. exact Proofs.Fiber.lumped_merge_both. Qed.
 Print Assumptions lumped_merge.
 
 Theorem lumped_merge_sorted : forall (op : Q -> Q -> Q) one zl z,
   StronglySorted (fun a b => fst a < fst b) (merge_grid op one zl z).
-Proof. intros op one zl z. exact (Proofs.Fiber.merge_list_sorted Q op _). Qed.
+Proof. exact Proofs.Fiber.merge_grid_sorted. Qed.
 Print Assumptions lumped_merge_sorted.
 
 (* a per-frequency loss coefficient is a convex combination of the two enclosing table entries *)
@@ -157,6 +158,24 @@ Theorem euler_discretisation_bound : forall a grid,
   - 2 * rsum (map (fun x => x * x) xs) <= ln (Q2R (step_prod a grid)) + rsum xs <= 0.
 Proof. exact Proofs.FiberR.euler_discretisation_bound. Qed.
 Print Assumptions euler_discretisation_bound.
+
+(* the LIMIT: eulerF is the Euler recurrence over R with the input powers scaled by t (one function of t per
+   channel); as t -> 0 the loss profile of every channel tends to g_j * prod_k (1 - alpha_j dz_k) * lumped_k *)
+Theorem euler_zero_power_limit : forall alpha cr p0 grid (g : list R) j,
+  length alpha = length g -> length cr = length g ->
+  let Gs := eulerF alpha cr p0 grid (map (fun x => fun _ : R => x) g) in
+  forall eps, 0 < eps -> exists delta, 0 < delta /\
+    forall t, Rabs t < delta ->
+      Rabs (nth j Gs (fun _ => 0) t - nth j (closedR grid g alpha cr) 0) < eps.
+Proof. exact Proofs.FiberR.euler_zero_power_limit. Qed.
+Print Assumptions euler_zero_power_limit.
+
+(* ... and eulerF evaluated at a rational scaling factor is the rational model euler_g read in R *)
+Theorem euler_model_is_real_scheme : forall alpha cr p0 tq grid g Gs, evalF (Q2R tq) Gs = map Q2R g ->
+  evalF (Q2R tq) (eulerF (map Q2R alpha) (map (map Q2R) cr) (map Q2R p0) (gridR grid) Gs) =
+  map Q2R (euler_g alpha cr (map (Qmult tq) p0) grid g).
+Proof. exact Proofs.FiberR.euler_g_R. Qed.
+Print Assumptions euler_model_is_real_scheme.
 
 (* perturbative solver, first order: pumps with non-negative Raman efficiency only add gain *)
 Theorem pump_gain_nonneg : forall base z ps, 0 <= z ->
